@@ -65,8 +65,8 @@ theorem decode_val_present (p : Param) (raw : Option (List Wire)) (h : decode p 
     | sc t => simp [hty] at h
     | array t => simp only [hty] at h; split at h <;> simp at h
 
-/-- for a typed parameter "not found" means the key is absent -/
-theorem decode_nil_false_absent (p : Param) (raw : Option (List Wire)) (hty : p.ty ≠ .untyped)
+/-- for a typed non-path parameter "not found" means the key is absent -/
+theorem decode_nil_false_absent (p : Param) (raw : Option (List Wire)) (hty : p.ty ≠ .untyped) (hpath : p.loc ≠ .path)
     (h : decode p raw = .nil false) : raw = none := by
   cases raw with
   | none => rfl
@@ -79,7 +79,7 @@ theorem decode_nil_false_absent (p : Param) (raw : Option (List Wire)) (hty : p.
       simp only [hp] at h
       cases ws with
       | nil => simp at h
-      | cons w r => simp only at h; split at h <;> simp at h
+      | cons w r => simp only at h; split at h <;> simp at h; exact hpath h
     | array t =>
       simp only [hp] at h
       split at h
@@ -303,7 +303,7 @@ theorem add_ne_self (st : Store) (k : Key) (ws : List Wire) (hne : ws ≠ []) : 
 theorem paramStep_congr (skip : Bool) (p : Param) (st st' : Store) (h : st.get p.key = st'.get p.key) :
     (paramStep skip p st').2 = (paramStep skip p st).2 ∧
     ((paramStep skip p st).1 = st → (paramStep skip p st').1 = st') := by
-  unfold paramStep
+  unfold paramStep stepWith
   rw [← h]
   cases decode p (st.get p.key) with
   | err => simp
@@ -326,7 +326,7 @@ theorem regular_congr (skip : Bool) (p : Param) (st st' : Store) (h : st.get p.k
 
 theorem paramStep_other (skip : Bool) (p : Param) (st : Store) (k : Key) (hk : k ≠ p.key) :
     (paramStep skip p st).1.get k = st.get k := by
-  unfold paramStep
+  unfold paramStep stepWith
   cases decode p (st.get p.key) with
   | err => rfl
   | val => rfl
@@ -370,5 +370,30 @@ theorem paramsPhase_ok_cons (skip multi : Bool) (p : Param) (ps : List Param) (s
     rename_i hc
     simp only [hc, Bool.false_eq_true, ↓reduceIte]
     exact ⟨h.1, h.2, trivial⟩
+
+theorem paramsPhaseCached_cons (skip multi : Bool) (view : Store) (p : Param) (ps : List Param) (st : Store) :
+    paramsPhaseCached skip multi view (p :: ps) st =
+      (if !(paramStepCached skip view p st).2 && !multi then ((paramStepCached skip view p st).1, false)
+       else ((paramsPhaseCached skip multi view ps (paramStepCached skip view p st).1).1,
+             (paramStepCached skip view p st).2 && (paramsPhaseCached skip multi view ps (paramStepCached skip view p st).1).2)) := by
+  rw [paramsPhaseCached]
+
+theorem paramStepCached_eq (skip : Bool) (view : Store) (p : Param) (st : Store)
+    (h : st.get p.key = view.get p.key) : paramStepCached skip view p st = paramStep skip p st := by
+  unfold paramStepCached paramStep
+  split
+  · rw [h]
+  · rfl
+
+/-- as long as every remaining parameter finds its own key in the cache as it is in the URL, the cache is invisible -/
+theorem paramsPhaseCached_eq (skip multi : Bool) (view : Store) : ∀ (ps : List Param) (st : Store),
+    keysDistinct ps = true → (∀ p ∈ ps, st.get p.key = view.get p.key) →
+    paramsPhaseCached skip multi view ps st = paramsPhase skip multi ps st
+  | [], st, _, _ => rfl
+  | p :: ps, st, hk, hv => by
+    simp only [keysDistinct, Bool.and_eq_true, List.all_eq_true, bne_iff_ne, ne_eq] at hk
+    rw [paramsPhaseCached_cons, paramsPhase_cons, paramStepCached_eq skip view p st (hv p (by simp))]
+    rw [paramsPhaseCached_eq skip multi view ps _ hk.2
+      (fun q hq => by rw [paramStep_other skip p st q.key (hk.1 q hq)]; exact hv q (by simp [hq]))]
 
 end KinModel.C13.Params
